@@ -64,6 +64,23 @@ pub(crate) fn bbox_write_z_range_to<PointType: HasZ, W: Write>(
     Ok(())
 }
 
+fn invalid_count_error() -> std::io::Error {
+    std::io::Error::new(
+        std::io::ErrorKind::InvalidData,
+        "invalid (negative) number of points or parts",
+    )
+}
+
+/// Returns a Vec ready to receive `count` elements.
+///
+/// `count` comes from the file and is not backed by data yet, so it is not trusted
+/// to reserve more than a few KB in advance.
+fn vec_for_count_from_file<T>(count: i32) -> std::io::Result<Vec<T>> {
+    const MAX_PREALLOCATED_ELEMENTS: usize = 1024;
+    let count = usize::try_from(count).map_err(|_| invalid_count_error())?;
+    Ok(Vec::with_capacity(count.min(MAX_PREALLOCATED_ELEMENTS)))
+}
+
 pub(crate) fn read_xy_in_vec_of<PointType, T>(
     source: &mut T,
     num_points: i32,
@@ -72,7 +89,7 @@ where
     PointType: HasMutXY + Default,
     T: Read,
 {
-    let mut points = Vec::<PointType>::with_capacity(num_points as usize);
+    let mut points = vec_for_count_from_file::<PointType>(num_points)?;
     for _ in 0..num_points {
         let mut p = PointType::default();
         *p.x_mut() = source.read_f64::<LittleEndian>()?;
@@ -106,7 +123,7 @@ pub(crate) fn read_parts<T: Read>(
     source: &mut T,
     num_parts: i32,
 ) -> Result<Vec<i32>, std::io::Error> {
-    let mut parts = Vec::<i32>::with_capacity(num_parts as usize);
+    let mut parts = vec_for_count_from_file::<i32>(num_parts)?;
     for _ in 0..num_parts {
         parts.push(source.read_i32::<LittleEndian>()?);
     }
@@ -169,7 +186,6 @@ impl Iterator for PartIndexIter<'_> {
                 .copied()
                 .unwrap_or(self.num_points);
             self.current_part_index += 1;
-            debug_assert!(end_of_part_index >= start_of_part_index);
             Some((start_of_part_index, end_of_part_index))
         } else {
             None
@@ -202,7 +218,8 @@ impl<'a, PointType: Default + HasMutXY, R: Read> MultiPartShapeReader<'a, PointT
         let num_parts = source.read_i32::<LittleEndian>()?;
         let num_points = source.read_i32::<LittleEndian>()?;
         let parts_array = read_parts(source, num_parts)?;
-        let parts = Vec::<Vec<PointType>>::with_capacity(num_parts as usize);
+        // num_parts is backed by the parts array that was just read
+        let parts = Vec::<Vec<PointType>>::with_capacity(parts_array.len());
         Ok(Self {
             num_points,
             num_parts,
@@ -215,7 +232,10 @@ impl<'a, PointType: Default + HasMutXY, R: Read> MultiPartShapeReader<'a, PointT
 
     pub(crate) fn read_xy(mut self) -> std::io::Result<Self> {
         for (start_index, end_index) in PartIndexIter::new(&self.parts_array, self.num_points) {
-            let num_points_in_part = end_index - start_index;
+            let num_points_in_part = end_index
+                .checked_sub(start_index)
+                .filter(|n| *n >= 0)
+                .ok_or_else(invalid_count_error)?;
             self.parts
                 .push(read_xy_in_vec_of(self.source, num_points_in_part)?);
         }
